@@ -4,6 +4,7 @@ use crate::driver::{CheckCtx, Found, PropMeta, Violation};
 pub mod c03;
 pub mod c04;
 pub mod c11;
+pub mod c18;
 pub mod c19;
 pub mod c20;
 pub mod histprops;
@@ -19,6 +20,7 @@ pub fn registry() -> Vec<PropEntry> {
         PropEntry { meta: &c03::META, check: c03::check, replay: c03::replay },
         PropEntry { meta: &c04::META, check: c04::check, replay: c04::replay },
         PropEntry { meta: &c11::META, check: c11::check, replay: c11::replay },
+        PropEntry { meta: &c18::META, check: c18::check, replay: c18::replay },
         PropEntry { meta: &c19::META, check: c19::check, replay: c19::replay },
         PropEntry { meta: &c20::META, check: c20::check, replay: c20::replay },
         PropEntry { meta: &histprops::C01_META, check: |c| histprops::hist_check(c, &histprops::C01), replay: |_, _, v| histprops::hist_replay(&histprops::C01, v) },
